@@ -27,7 +27,12 @@ def main():
         mod = importlib.import_module(f"cmv.props.{modname}")
         with open(shard_path) as f:
             shard = json.load(f)
-        mod.work(shard, rec)
+        from cmv import reach
+        reach.start()
+        try:
+            mod.work(shard, rec)
+        finally:
+            rec.reached.update(reach.stop())
     except env.Inconclusive as e:
         rec.inconc(str(e))
     except BaseException as e:  # harness failure
